@@ -318,12 +318,17 @@ class ConvolvedFluxes(object):
             # same units as the current ones for the interpolation, and we need
             # to add the flux unit back.
 
+            # The bounds above were applied in the units of the request, and
+            # converting back to the units of the table can move a value by
+            # one ulp, so re-apply them once the conversion is done.
+            new_apertures = np.clip(c.apertures.to(self.apertures.unit), self.apertures.min(), self.apertures.max())
+
             flux_interp = interp1d(self.apertures, self.flux)
-            c.flux = flux_interp(c.apertures.to(self.apertures.unit)) * self.flux.unit
+            c.flux = flux_interp(new_apertures) * self.flux.unit
 
             # The following is not strictly correct - errors from interpolation is not interpolation of errors
             error_interp = interp1d(self.apertures, self.error)
-            c.error = error_interp(c.apertures.to(self.apertures.unit)) * self.error.unit
+            c.error = error_interp(new_apertures) * self.error.unit
 
         else:
 
